@@ -199,30 +199,43 @@ func C12(c *mc.Ctx) {
 	// long history crossing the journal-pruning boundary (window of 10 blocks)
 	long := []string{"create", "over", "create2", "del", "balnon", "code1", "delcreate", "accB", "over", "code2", "readadd", "del", "create"}
 	n := len(long)
+	// <13 blocks> [reopen] rollback(t) [rollback(second)] [a different block] [rollback(u)]:
+	// the last rollback meets a window whose upper end was moved by the first one and a
+	// continuation committed on top of it
 	for t := 0; t <= n+1; t++ {
-		for _, second := range []int{-1, 0, n - 11, n - 10, n - 5} {
+		for _, second := range []int{-2, -1, 0, n - 11, n - 10, n - 5} {
 			for _, reopen := range []bool{false, true} {
-				in := newSLInst()
-				var path []string
-				for _, bn := range long {
-					path = append(path, "blk "+bn)
+				for u := -1; u <= n+1; u++ {
+					if second == -1 && u >= 0 {
+						continue // no continuation: a third rollback adds nothing over `second`
+					}
+					var path []string
+					for _, bn := range long {
+						path = append(path, "blk "+bn)
+					}
+					if reopen {
+						path = append(path, "reopen")
+					}
+					path = append(path, fmt.Sprintf("rollback %d", t))
+					if second >= 0 {
+						path = append(path, fmt.Sprintf("rollback %d", second), "blk over")
+					} else if second == -2 {
+						path = append(path, "blk over")
+					}
+					if u >= 0 {
+						path = append(path, fmt.Sprintf("rollback %d", u))
+					}
+					in := newSLInst()
+					for i, op := range path {
+						c12Apply(c, in, op, path[:i+1])
+					}
+					c12Check(c, in, path)
+					c.Add("long_history_cases", 1)
 				}
-				if reopen {
-					path = append(path, "reopen")
-				}
-				path = append(path, fmt.Sprintf("rollback %d", t))
-				if second >= 0 {
-					path = append(path, fmt.Sprintf("rollback %d", second), "blk over")
-				}
-				for i, op := range path {
-					c12Apply(c, in, op, path[:i+1])
-				}
-				c12Check(c, in, path)
-				c.Add("long_history_cases", 1)
 			}
 		}
 	}
-	c.Set("rule", "BFS over histories of committed blocks (creations, overwrites, deletions, delete+recreate, AddState, code, balance/nonce, touch-only, empty, empty value, second account, in-block snapshot/revert) with rollback(t) for every t in 0..head+1, repeated rollbacks, other continuations and reopen; plus a 13-block history crossing the 10-block journal window with every rollback target and second rollbacks, with and without a reopen before the rollback; the retained window (last 10 committed heights) is the harness's own bookkeeping, not read from the ledger")
+	c.Set("rule", "BFS over histories of committed blocks (creations, overwrites, deletions, delete+recreate, AddState, code, balance/nonce, touch-only, empty, empty value, second account, in-block snapshot/revert) with rollback(t) for every t in 0..head+1, repeated rollbacks, other continuations and reopen; plus a 13-block history crossing the 10-block journal window with every rollback target, optionally a second rollback, a different continuation block and then again every rollback target, with and without a reopen before the first rollback; the retained window (last 10 committed heights) is the harness's own bookkeeping, not read from the ledger")
 	c.Assume("memkv has goleveldb's observable semantics")
 	if c.Get("rollbacks_effective") == 0 || c.Get("reexecuted_blocks") == 0 {
 		c.HarnessError("vacuous: no effective rollback / re-execution explored")
